@@ -44,8 +44,14 @@ func (t *VerifPrioTree) Priority(id uint32, p PriorityParam) {
 	_ = t.sc.processPriority(f)
 }
 
-// Close mirrors what serverConn.closeStream does to the tree: delete(sc.streams, st.id).
-func (t *VerifPrioTree) Close(id uint32) { delete(t.sc.streams, id) }
+// Close mirrors what serverConn.closeStream does to the tree: st.state = stateClosed;
+// delete(sc.streams, st.id).
+func (t *VerifPrioTree) Close(id uint32) {
+	if st := t.sc.streams[id]; st != nil {
+		st.state = stateClosed
+	}
+	delete(t.sc.streams, id)
+}
 
 // Dump prints every stream object in creation order as id:parent|-:weight:o|c .
 func (t *VerifPrioTree) Dump() string {
